@@ -268,3 +268,80 @@ UNITS += [
          assumptions=["Grid bound to NonuniformGrid<real_type>; NonuniformGrid::find by its c18_nonuniform_find contract", "IEEE lemmas assumed: a <= c => a - d <= c - d (monotone rounding); 0 <= n <= den, den > 0 => 0 <= n/den <= 1; 0/den == 0 (the quotient's value is uninterpreted, the subtractions are bit-precise)", "grid values within +-1e300"],
          note="find_interp: the bracketing bin's lower index (index + 1 < size, the in-body CELER_ASSERT), fraction = (value - lower)/(upper - lower) in [0, 1] in IEEE double arithmetic, exactly 0 on a knot; any grid length"),
 ]
+
+# ---------------------------------------------------------------------------
+# TwodGridData::at, TwodSubgridCalculator::operator(): bilinear interpolation reads exactly the four corners of the located cell
+# ---------------------------------------------------------------------------
+TWOD_MODEL = """
+typedef struct { size_type nx, ny, values_front, values_size; } TwodGridData;         /* x.size(), y.size(), values.front().get(), values.size() */
+typedef struct { TwodGridData const* grids_; real_type const* storage_; size_type storage_size; NonuniformGrid ygrid; FindInterp x_loc_; } TwodSubgridCalculator;
+#define TGD_OK(g) ((g)->nx >= 2 && (g)->ny >= 2 && (g)->nx <= 32 && (g)->ny <= 32 && (g)->values_size == (g)->nx * (g)->ny && (g)->values_front <= 1000000)
+real_type g_corner[2][2]; size_type g_cx, g_cy; unsigned g_nread[2][2];   /* ghost: reads per corner */           /* ghost: the table values at the four corners (xo, yo) of cell (g_cx, g_cy) */
+/* Collection<real_type>[ItemId]: bounds asserted; the read value is the corner value when the index is that corner's flattened index */
+static real_type STORAGE_at(TwodSubgridCalculator const* self, size_type id)
+{
+    __CPROVER_assert(id < self->storage_size, "celer_expect: Collection::operator[] i < size");
+    size_type base = self->grids_->values_front;
+    for (int xo = 0; xo < 2; ++xo) for (int yo = 0; yo < 2; ++yo)
+        if (id == base + (g_cx + xo) * self->grids_->ny + (g_cy + yo)) { ++g_nread[xo][yo]; return g_corner[xo][yo]; }
+    __CPROVER_assert(0, "twod.reads_only_the_four_corners_of_the_located_cell");
+    return 0;
+}
+"""
+TGD_RULES = [
+    Rule(r"this->x\.size\(\)", "self->nx", "+", note="ItemRange::size()"),
+    Rule(r"this->y\.size\(\)", "self->ny", "+", note="ItemRange::size()"),
+    Rule(r"return ItemId<real_type>\{index \+ this->values\.front\(\)\.get\(\)\};", "return index + self->values_front;", 1, note="ItemId construction -> integer"),
+]
+TSC_RULES = [
+    Rule(r"NonuniformGrid<real_type> const y_grid\{grids_\.y, storage_\};", "NonuniformGrid const* y_grid = &self->ygrid;", 1, note="grid view over the y knots"),
+    Rule(r"y_grid\.(front|back)\(\)", r"NUG_\1(y_grid)", "+", note="NonuniformGrid accessors"),
+    Rule(r"InterpT const y_loc = find_interp\(y_grid, y\);", "FindInterp const y_loc = find_interp(y_grid, y);", 1, note="find_interp by its c18_find_interp contract"),
+    Rule(r"\) -> real_type \{", ") {", "*", note="trailing return type of the lambda dropped (result type given to the lowering)"),
+    NamedLambda("at_corner", "real_type"),
+    Rule(r"size_type xo, size_type yo = \(([^;]*?), ([^;]*?)\);", r"size_type xo = (\1); size_type yo = (\2);", "+", note="two-parameter lambda: parameter binding split"),
+    Rule(r"this->at\(", "TSC_at(self, ", "+", note="member call"),
+    Rule(r"(?<![\w.>])x_loc_\.", "self->x_loc_.", "+", note="data member"),
+]
+
+
+def build_twod(ctx):
+    at = ctx.func(TGD, r"CELER_FUNCTION ItemId<real_type> at\(size_type ix, size_type iy\) const", TGD_RULES, name="TwodGridData::at")
+    sat = ctx.func(TSC, r"^CELER_FUNCTION real_type TwodSubgridCalculator::at\(size_type x_idx,\s*size_type y_idx\) const", [
+        Rule(r"return storage_\[grids_\.at\(x_idx, y_idx\)\];", "return STORAGE_at(self, TGD_at(self->grids_, x_idx, y_idx));", 1, note="Collection read through TwodGridData::at")], name="TwodSubgridCalculator::at")
+    call = ctx.func(TSC, r"^CELER_FUNCTION real_type TwodSubgridCalculator::operator\(\)\(real_type y\) const", TSC_RULES, name="TwodSubgridCalculator::operator()")
+    fi = _fi_text(ctx)
+    return (fi + TWOD_MODEL + """
+size_type TGD_at(TwodGridData const* self, size_type ix, size_type iy)
+{""" + at.body + """}
+static real_type TSC_at(TwodSubgridCalculator const* self, size_type x_idx, size_type y_idx)
+{""" + sat.body + """}
+real_type TSC_call(TwodSubgridCalculator const* self, real_type y)
+__CPROVER_requires(__CPROVER_r_ok(self, sizeof(*self)) && __CPROVER_r_ok(self->grids_, sizeof(TwodGridData)) && TGD_OK(self->grids_))
+/* constructor EXPECTs: values inside the storage, x location inside the x grid with a fraction in [0, 1) */
+__CPROVER_requires(self->grids_->values_front + self->grids_->values_size <= self->storage_size && self->x_loc_.index < self->grids_->nx - 1 && self->x_loc_.fraction >= 0 && self->x_loc_.fraction < 1)
+__CPROVER_requires(self->ygrid.n == self->grids_->ny && y >= self->ygrid.front && y < self->ygrid.back && self->ygrid.front >= -1e300 && self->ygrid.back <= 1e300)     /* own CELER_EXPECT */
+__CPROVER_requires(g_cx == self->x_loc_.index && g_nread[0][0] == 0 && g_nread[0][1] == 0 && g_nread[1][0] == 0 && g_nread[1][1] == 0)
+__CPROVER_assigns(g_bin, g_lo, g_hi, g_cy, __CPROVER_object_whole(g_nread))
+/* the y cell is the one find_interp located, inside the grid (the value itself -- four IEEE products -- is NOT decided: no installed back end finishes on them) */
+__CPROVER_ensures(g_cy == g_bin && g_cy < self->grids_->ny - 1)
+/* each of the four corners of the cell enters the interpolation exactly once */
+__CPROVER_ensures(g_nread[0][0] == 1 && g_nread[0][1] == 1 && g_nread[1][0] == 1 && g_nread[1][1] == 1)
+{
+    g_cy = nondet_size_type();       /* ghost: bound to the located y bin by the assumption inside find_interp's stub use below */
+""" + call.body.replace("FindInterp const y_loc = find_interp(y_grid, y);", "FindInterp const y_loc = find_interp(y_grid, y); __CPROVER_assume(g_cy == y_loc.index);") + """}
+void h_twod(void)
+{
+    TwodGridData g; TwodSubgridCalculator c; c.grids_ = &g; real_type y;
+    TSC_call(&c, y);
+    VERIF_CANARY();
+}
+""")
+
+
+UNITS += [
+    Unit("c18_twod_subgrid", build_twod, "h_twod", enforce="TSC_call", replace=["find_interp"], unwind=8, timeout=600, bounded="grid extents <= 32 x 32", backend=["sat", "kissat", "cvc5"],
+         must_have=[r"TSC_call.postcondition", r"twod.reads_only_the_four_corners", r"celer_expect", r"celer_ensure", r"find_interp.precondition"], checks=["--bounds-check", "--pointer-check", "--unsigned-overflow-check"],
+         assumptions=["find_interp by its c18_find_interp contract", "grid extents <= 32 x 32 (stated bound: the index products are decided by SAT only for small extents)", "table storage seen through the four corner values of the located cell (any other read is an assertion failure)"],
+         note="TwodSubgridCalculator::operator() + TwodGridData::at (real bodies): every table read is in range and is one of the four corners of the cell located by the x and y lookups (row-major: ix * ny + iy); the interpolated value itself is not decided"),
+]
